@@ -38,3 +38,25 @@ newtype_harness!(c15_macsec_an, MacsecAn, u8, 0b11, MacsecAn::try_new, |x: Macse
 newtype_harness!(c15_macsec_short_len, MacsecShortLen, u8, 0b11_1111, MacsecShortLen::try_from_u8, |x: MacsecShortLen| x.value());
 newtype_harness!(c15_igmp_qrv, igmp::Qrv, u8, 0b111, igmp::Qrv::try_new, |x: igmp::Qrv| x.value());
 
+
+/// C15, complete (loop-free, all 256 traffic class octets x every DSCP / ECN value): `Ipv6Header::set_dscp` / `set_ecn` change exactly
+/// their own bits of the traffic class octet and nothing else in the header; `dscp()` / `ecn()` read them back (RFC 2474 / RFC 3168).
+/// Paired harness of the bit-level Verus contracts of these four functions.
+#[kani::proof]
+fn c15_ipv6_header_traffic_class() {
+    let tc: u8 = kani::any();
+    let d: u8 = kani::any();
+    let e: u8 = kani::any();
+    kani::assume(d <= 0x3f && e <= 3);
+    let mut h = Ipv6Header { traffic_class: tc, flow_label: Ipv6FlowLabel::try_new(kani::any::<u32>() & 0xfffff).unwrap(), payload_length: kani::any(), next_header: IpNumber(kani::any()), hop_limit: kani::any(), source: kani::any(), destination: kani::any() };
+    let before = h.clone();
+    assert!(h.dscp().value() == tc >> 2 && h.ecn().value() == tc & 3, "dscp()/ecn() do not read the upper 6 / lower 2 bits of the traffic class");
+    h.set_dscp(IpDscp::try_new(d).unwrap());
+    assert!(h.traffic_class == (d << 2) | (tc & 3), "set_dscp changed more (or less) than the six DSCP bits");
+    h.set_ecn(IpEcn::try_new(e).unwrap());
+    assert!(h.traffic_class == (d << 2) | e, "set_ecn changed more (or less) than the two ECN bits");
+    assert!(h.dscp().value() == d && h.ecn().value() == e);
+    h.traffic_class = before.traffic_class;
+    assert!(h == before, "a traffic class setter changed another header field");
+    kani::cover!(tc == 0xff && d == 0 && e == 0);
+}
